@@ -188,6 +188,20 @@ def run (ctx):
     ctx.analysed(hp)
     g2 = q.cfg_of(hp); app = g2.nodes_with_call(lambda c: call_name(c) == 'append' and '_deferred_port_status' in norm(c.func.value))
     good = bool(app) and any('_deferred_port_status is not None' in f for f in q.fact_strs(g2, app[0]))
+    if not app and len(hp.params) >= 3:
+      # the buffer may be kept as an immutable sequence that is replaced (`buf += (msg,)`): by evaluation - with buffering off (None)
+      # the handler leaves it off and does not fail, with an empty / a one-element buffer the message is added at the tail
+      DPh = hp.params[1] + '._deferred_port_status'
+      is_log = lambda e: isinstance(e, ast.Call) and call_name(e) in ('msg', 'info', 'debug', 'warn', 'warning', 'err')
+      res_ = []
+      for kind_ in (list, tuple):
+        for b_ in (None, kind_(), kind_(['m0'])):
+          ps_ = q.paths_under(repo, hs.module, g2, q.Env({DPh: b_, hp.params[2]: 'm1'}, [(is_log, None)]), g2.entry, [g2.exit, g2.raise_exit], hs, limit=30)
+          outs_ = [('raise' if p_[-1] is g2.raise_exit else e_.exact.get(DPh, '?')) for p_, e_ in ps_]
+          res_.append((kind_, b_, outs_))
+      def fine (kind_):
+        return all(outs_ and all((o_ is None) if b_ is None else (isinstance(o_, (list, tuple)) and list(o_) == list(b_) + ['m1']) for o_ in outs_) for k_, b_, outs_ in res_ if k_ is kind_)
+      good = fine(list) or fine(tuple)
     ctx.ob('R-DOM', hp, "early port-status is buffered only while buffering is on", good, "append under `is not None`" if good else "append unguarded", hp, 'D3')
     if app:
       c = [c for c in q.node_calls(app[0]) if call_name(c) == 'append'][0]
